@@ -20,6 +20,7 @@ import (
 	"github.com/lesismal/nbio/logging"
 
 	"verif/vsched"
+	"verif/vshim/vsync"
 )
 
 // QuietLogger counts nbio's log lines instead of printing them. Error lines (which is where
@@ -103,6 +104,9 @@ type Part struct {
 	MaxBoundD    int            `json:"bound_deviations"`
 	NonTrivial   int            `json:"nontrivial"`
 	ScenarioList []string       `json:"-"`
+
+	curScenario string
+	curInput    interface{}
 }
 
 func newPart() *Part {
@@ -192,6 +196,9 @@ type Spec struct {
 	Extra         map[string]interface{}
 	// UsesSimulatedKernel: the evidence reports the kernel conformance replay (kconf).
 	UsesSimulatedKernel bool
+	// NoPoolMonitor turns off the sync.Pool ownership monitor (double Put detection), which is on
+	// by default in every check.
+	NoPoolMonitor bool
 	// ReplaySeq re-runs one sequential case from its recorded input; returns "" or the violation.
 	ReplaySeq func(scenario string, input json.RawMessage) string
 }
@@ -444,8 +451,42 @@ func isFlagSet(name string) bool {
 	return set
 }
 
+// pool ownership monitor (vsync.DoublePut): inside a scheduled execution a double Put fails the
+// execution at once; in sequential checks it is collected and reported with the next Case (or by
+// the check itself through TakeDoublePuts, together with the input that caused it).
+var (
+	dpMu      sync.Mutex
+	dpPending []string
+)
+
+func watchPools() {
+	vsync.DoublePut = func(typ string) {
+		if vsched.Active() {
+			vsched.Fail("pool-double-put type=%s|an object that is already in a sync.Pool was put into the same pool again: the pool hands one object to two owners, which then corrupt each other's state", typ)
+			return
+		}
+		dpMu.Lock()
+		if len(dpPending) < 16 {
+			dpPending = append(dpPending, typ)
+		}
+		dpMu.Unlock()
+	}
+}
+
+// TakeDoublePuts returns (and forgets) the double Puts seen since the last call.
+func TakeDoublePuts() []string {
+	dpMu.Lock()
+	defer dpMu.Unlock()
+	r := dpPending
+	dpPending = nil
+	return r
+}
+
 func runShard(spec *Spec, tier string, sh *Shard, only string) *Part {
 	part := newPart()
+	if !spec.NoPoolMonitor {
+		watchPools()
+	}
 	if spec.Build != nil {
 		for _, sc := range spec.Build(tier) {
 			if only != "" && !strings.Contains(sc.Name, only) {
@@ -663,8 +704,18 @@ func doReplay(spec *Spec, path string) int {
 		return 2
 	}
 	f := rf.Finding
+	if !spec.NoPoolMonitor {
+		watchPools()
+	}
+	if f.Scenario == "pool-monitor" {
+		fmt.Println("found by the sync.Pool ownership monitor while the enumeration ran (" + f.Desc + "); it is not tied to one stored input: re-run the check to reproduce it")
+		return 2
+	}
 	if len(f.Input) > 0 && spec.ReplaySeq != nil {
 		d := spec.ReplaySeq(f.Scenario, f.Input)
+		if dp := TakeDoublePuts(); len(dp) > 0 && d == "" {
+			d = "pool-double-put type=" + dp[0]
+		}
 		fmt.Println(d)
 		if d != "" {
 			fmt.Printf("VIOLATION property=%s replay=%s\n", spec.Property, path)
@@ -725,6 +776,12 @@ func (p *Part) Report(sig, desc, scenario string, input interface{}) {
 	p.Findings = append(p.Findings, &Finding{Sig: sig, Desc: desc, Scenario: scenario, Input: b, Count: 1})
 }
 
+// SetCurrent tells the monitors which case is being evaluated (scenario and replay input), so that
+// what they find is reported with a replayable input.
+func (p *Part) SetCurrent(scenario string, input interface{}) {
+	p.curScenario, p.curInput = scenario, input
+}
+
 // Count adds to a coverage counter.
 func (p *Part) Count(key string, n int) { p.Counters[key] += n }
 
@@ -741,6 +798,13 @@ func (p *Part) Sample(x interface{}) {
 // Case accounts for one evaluated case; nontrivial says whether it exercised the mechanism;
 // states/transitions are the model-checking style counts (distinct states reached / steps).
 func (p *Part) Case(nontrivial bool, states, transitions int) {
+	for _, t := range TakeDoublePuts() {
+		if p.curInput != nil {
+			p.Report("pool-double-put type="+t, "an object that is already in a sync.Pool was put into the same pool again while this case ran (the pool hands one object to two owners)", p.curScenario, p.curInput)
+			continue
+		}
+		p.Report("pool-double-put type="+t, "an object that is already in a sync.Pool was put into the same pool again (the pool hands one object to two owners); seen while evaluating the case before case #"+strconv.Itoa(p.Execs+1)+" of this shard", "pool-monitor", map[string]int{"shard_case": p.Execs})
+	}
 	p.Execs++
 	p.States += states
 	p.Transitions += transitions
